@@ -107,7 +107,7 @@ func modeFor(prop string) (*histMode, error) {
 				return append(hist.CheckDelivery(r), hist.CheckCumulativeDelivery(r)...)
 			}}, nil
 	case "C05":
-		return &histMode{flavors: []string{"counter", "array", "text", "mixed"}, proto: true,
+		return &histMode{flavors: []string{"counter", "array", "text", "mixed"}, proto: true, smallSnap: true,
 			gen: hist.GenConfig{NoMovedSet: true, MinClients: 2, MaxClients: 4, MinSteps: 6, MaxSteps: 30, Retry: true, Racing: true, Inflight: true, LostRetry: true, Faults: true},
 			oracle: func(h *hist.History, o *hist.Outcome) []hist.Problem {
 				ps := baseOracle(h, o)
@@ -469,9 +469,15 @@ func runHist(cfg *config) error {
 		}
 		kind := ps[0].Kind
 		res.count("fail." + kind)
-		failSigs[kind]++
-		if failSigs[kind] > 3 {
-			continue // enough examples of this kind; keep counting only
+		// enough examples of this kind with this signature; keep counting only.  The cap is per
+		// (kind, signature of the unshrunk history), not per kind: a recorded finding that produces
+		// many failures of one kind (P8: duplicate rows after a fault in the push window) must not
+		// use up the examples and hide another cause of the same kind
+		pre, _ := json.Marshal(signature(h, kind))
+		capKey := kind + "|" + string(pre)
+		failSigs[capKey]++
+		if failSigs[capKey] > 3 {
+			continue
 		}
 		// shrink, keeping the same first problem kind
 		small := hist.Shrink(h, func(c *hist.History) bool {
